@@ -123,6 +123,9 @@ def classify_ip(ctx, v):
         add_violation(ctx, "C16", "result flag does not match the form of the domain", case)
     elif w == "flag set on rejection":
         add_violation(ctx, "C16", "flag set although the address is invalid", case)
+    elif w == "composition":
+        add_violation(ctx, "C01", "literal: high-level decision differs from the public is_ipaddr on the bracket content", case)
+        add_violation(ctx, "C15", "ip-addr error reported for a literal the library's own validator accepts (or the reverse)", case)
     elif w == "mode dependent":
         add_violation(ctx, "C12", "literal judged differently across modes", case)
     elif w == "mode/tld_check dependent":
